@@ -74,8 +74,8 @@ let pit_line (p : pite list) : string =
          String.concat ":" [dec_of_n r.or_face; dec_of_n r.or_nonce; dec_of_n r.or_at; dec_of_n r.or_exp; string_of_name r.or_name]) outs)) ] in
   String.concat " " ("pit" :: List.map se ents)
 
-let pitn_line (p : pite list) : string =
-  Printf.sprintf "pitn %d %d %d" (List.length p) (List.length p) (List.length (List.filter (fun e -> e.pe_q <> None) p))
+let pitn_line (p : pite list) (ncs : int) : string =
+  Printf.sprintf "pitn %d %d %d %d" (List.length p) (List.length p) (List.length (List.filter (fun e -> e.pe_q <> None) p)) ncs
 
 let cs_line (c : csent list) : string =
   let l = List.sort compare (List.map (fun e -> string_of_name e.cs_name ^ ":" ^ dec_of_n e.cs_stale) c) in
@@ -120,8 +120,8 @@ let parse_event (f : string list) : wev =
   | ["cs"; a; s] -> WGlobal (ECsFlags (a = "1", s = "1"))
   | ["cscap"; c] -> WGlobal (ECsCap (n_of_dec c))
   | ["sleep"; d] -> WGlobal (ESleep (n_of_dec d))
-  | ["tick"; k; now] -> WLocal (n_of_dec k, ETick (n_of_dec now))
-  | ["sweep"; k; now] -> WLocal (n_of_dec k, ESweep (n_of_dec now))
+  | ["tick"; k; now] | ["rtick"; k; now] -> WLocal (n_of_dec k, ETick (n_of_dec now))
+  | ["sweep"; k; now] | ["rsweep"; k; now] -> WLocal (n_of_dec k, ESweep (n_of_dec now))
   | ["int"; now; fc; n; cbp; mbf; nonce; life; hop; hints; tok; nhf] ->
       WPacket (EInterest (n_of_dec now, {
         i_face = n_of_dec fc; i_name = name_of_string n; i_cbp = (cbp = "1"); i_mbf = (mbf = "1");
@@ -135,9 +135,12 @@ let parse_event (f : string list) : wev =
                              d_tok = bytes_of_hex tok }))
   | _ -> failwith ("bad event: " ^ String.concat " " f)
 
+(* "shortly after the lifetime has elapsed": two periods of the PIT update timer of the production loop (2 x 100 ms) *)
+let reap_bound : n = n_of_int 200000000
+
 type block = { mutable evl : string list; mutable picks : (string * string) list; mutable outs : (int * string) list;
                bpit : (int, string) Hashtbl.t; bpitn : (int, string) Hashtbl.t; bcs : (int, string) Hashtbl.t;
-               bdnl : (int, string) Hashtbl.t }
+               bdnl : (int, string) Hashtbl.t; mutable noobs : bool; mutable clock : string option }
 
 let strat_of_name (s : fw) (n : name) : n = strat_of s.strat n
 let hget t k d = try Hashtbl.find t k with Not_found -> d
@@ -160,7 +163,7 @@ let () =
       incr ncases;
       incr i;
       (* cfg *)
-      let region = ref [] and dlife = ref (n_of_int 6000000000) and nthreads = ref 1 in
+      let region = ref [] and dlife = ref (n_of_int 6000000000) and nthreads = ref 1 and runloop = ref false in
       let probe_names = ref [] and probe_nonces = ref [] in
       let hash_tbl = Hashtbl.create 64 in
       while !i < nl && (let f = fields lines.(!i) in f <> [] && (List.hd f = "cfg" || List.hd f = "probe" || List.hd f = "hash")) do
@@ -171,6 +174,7 @@ let () =
                  | ["region"; r] -> region := [name_of_string r]
                  | ["dnl"; d] -> dlife := n_of_dec d
                  | ["threads"; t] -> nthreads := int_of_string t
+                 | ["run"; r] -> runloop := (r = "1")
                  | _ -> ()) kv
          | "hash" :: kv ->
              List.iter (fun s -> match String.split_on_char '=' s with
@@ -199,7 +203,9 @@ let () =
         let f = fields lines.(!i) in
         (match f with
          | "ev" :: rest -> fin (); cur := Some { evl = rest; picks = []; outs = []; bpit = Hashtbl.create 4; bpitn = Hashtbl.create 4;
-                                                 bcs = Hashtbl.create 4; bdnl = Hashtbl.create 4 }
+                                                 bcs = Hashtbl.create 4; bdnl = Hashtbl.create 4; noobs = false; clock = None }
+         | ["noobs"] -> withb (fun b -> b.noobs <- true)
+         | ["clock"; c] -> withb (fun b -> b.clock <- Some c)
          | "pick" :: k :: v :: _ -> withb (fun b -> b.picks <- (k, v) :: b.picks)
          | "out" :: k :: rest -> withb (fun b -> b.outs <- (int_of_string k, String.concat " " rest) :: b.outs)
          | "pit" :: k :: rest -> withb (fun b -> Hashtbl.replace b.bpit (int_of_string k) (String.concat " " ("pit" :: rest)))
@@ -261,10 +267,10 @@ let () =
             if outs_model_s <> outs_impl then
               dv "outputs" (String.concat "; " (List.map (fun (k, s) -> Printf.sprintf "%d:%s" k s) outs_model_s)) outs_impl_str
             else begin
-              List.iteri (fun k s ->
+              if not b.noobs then List.iteri (fun k s ->
                 if not !diverged then begin
                   if pit_line s.pit <> hget b.bpit k "pit" then dv (Printf.sprintf "pit@%d" k) (pit_line s.pit) (hget b.bpit k "pit")
-                  else if pitn_line s.pit <> hget b.bpitn k "" then dv (Printf.sprintf "pit-counters@%d" k) (pitn_line s.pit) (hget b.bpitn k "")
+                  else if pitn_line s.pit (List.length s.cs) <> hget b.bpitn k "" then dv (Printf.sprintf "pit-counters@%d" k) (pitn_line s.pit (List.length s.cs)) (hget b.bpitn k "")
                   else if cs_line s.cs <> hget b.bcs k "cs " then dv (Printf.sprintf "cs@%d" k) (cs_line s.cs) (hget b.bcs k "cs ")
                   else if String.trim (dnl_line s !probe_names !probe_nonces) <> String.trim (hget b.bdnl k "") then
                     dv (Printf.sprintf "dnl@%d" k) (dnl_line s !probe_names !probe_nonces) (hget b.bdnl k "")
@@ -338,6 +344,33 @@ let () =
         end;
         let oracle1 fmt = if want "C01" then Printf.printf fmt else Printf.ifprintf stdout fmt in
         (* slots pending by the history before this event (used by the dead-nonce oracle below) *)
+        (* production-loop cases: the thread's own Run loop updates the PIT. "Shortly after" the lifetime has elapsed is taken as two
+           periods of the loop's update timer: by then an expired Interest is no longer pending, whatever the implementation did *)
+        let now_b = match we, b.clock with
+          | WPacket (EInterest (now, _)), _ | WPacket (EData (now, _)), _ -> Some now
+          | WLocal (_, ETick now), _ | WLocal (_, ESweep now), _ -> Some now
+          | _, Some c -> Some (n_of_dec c)
+          | _ -> None in
+        if !runloop then begin
+          bump (if b.noobs then "events:production-loop:timer" else "events:production-loop");
+          (match now_b with
+           | Some now when N.ltb reap_bound now ->
+               let lim = N.sub now reap_bound in
+               for k = 0 to nt - 1 do sp.(k) <- pend_tick sp.(k) lim done
+           | _ -> ());
+          (match b.clock with
+           | Some c when not b.noobs ->
+               let c = n_of_dec c in
+               for k = 0 to nt - 1 do
+                 List.iter (fun e -> match String.split_on_char '|' e with
+                   | nm :: _ :: _ :: _ :: tok :: _ :: q :: _ when q <> "-" && N.ltb (N.add (n_of_dec q) reap_bound) c ->
+                       if want "C01" then
+                         Printf.printf "ORACLE C01 %s %d expired-still-pending | the forwarding thread's own loop (Thread.Run) left PIT entry %s (token %s) in the table although every lifetime recorded in it had elapsed at %s ns and it is now %s ns: the Interest is still treated as pending\n"
+                           caseid !evno nm tok q (dec_of_n c)
+                   | _ -> ()) (List.tl (fields (hget b.bpit k "pit")))
+               done
+           | _ -> ())
+        end;
         let sp_before = Array.copy sp in
         begin
           (match we with
@@ -546,8 +579,8 @@ let () =
                if List.exists (fun o -> o.o_kind = KInterest) outs_all then
                  Printf.printf "ORACLE C02 %s %d spontaneous | an Interest was sent although no Interest arrived: [%s]\n" caseid !evno outs_impl_str)
         end;
-        if outs_impl <> [] || List.exists (fun (p, _, _) -> p <> "pit") obs_now then changed := true;
-        prev_obs := Some obs_now
+        if outs_impl <> [] || (not b.noobs && List.exists (fun (p, _, _) -> p <> "pit") obs_now) then changed := true;
+        if not b.noobs then prev_obs := Some obs_now
       ) blocks;
       let h = Digest.to_hex (Digest.string (String.concat "\n" (List.map (fun b -> String.concat " " b.evl) blocks))) in
       Printf.printf "CASE %s %d %d %s %s\n" caseid !evno (Hashtbl.length kinds)
